@@ -867,6 +867,11 @@ func loadTasks(ctx context.Context, pgp *pgxpool.Pool, c config.Root) ([]*Task, 
 		if !ig.Enabled {
 			continue
 		}
+		// integrations stored in the database
+		// are not checked by config.ValidateFix
+		if err := ig.CheckSources(); err != nil {
+			return nil, err
+		}
 		for _, scRef := range ig.Sources {
 			sc, ok := scByName[scRef.Name]
 			if !ok {
